@@ -36,11 +36,12 @@ def obsFcstSingle (f : Vec → Vec → XR) (ax : CondAxis) (I : Interval) (obs f
      | .none => computeFromObsFcst f o g)
   | _ => .nan
 
-/-- `FromField.compute_single` for the Obs metric (`fieldIsObs`) or the Fcst metric; `none` = the
-aggregator is applied to an empty array (NumPy then warns and returns NaN or raises, depending on
-the aggregator) -/
+/-- `FromField.compute_single` for the Obs metric (`fieldIsObs`) or the Fcst metric.  When no case is
+selected the aggregator is applied to an empty array; an aggregator that raises there
+(`raisesOnEmpty`: np.min, np.max) gives NaN (the exception is caught), the others give whatever
+NumPy gives (np.sum = 0, np.mean = NaN, …).  Total: the layer never fails. -/
 def fromFieldSingle (agg : Vec → XR) (raisesOnEmpty : Bool) (fieldIsObs : Bool) (ax : CondAxis)
-    (I : Interval) (obs fcst : Vec) : Option XR :=
+    (I : Interval) (obs fcst : Vec) : XR :=
   let field := if fieldIsObs then obs else fcst
   let other := if fieldIsObs then fcst else obs
   let vals : Vec :=
@@ -57,8 +58,8 @@ def fromFieldSingle (agg : Vec → XR) (raisesOnEmpty : Bool) (fieldIsObs : Bool
             | _ => [])
       else let c := (getCols [field]).headD []; selectWithin I c c
   -- an empty selection goes to the aggregator as an empty array (np.sum = 0, np.mean = NaN, …);
-  -- `raisesOnEmpty` aggregators (np.min, np.max) raise ValueError there: `none`
-  if vals.isEmpty && raisesOnEmpty then none else some (agg vals)
+  -- `raisesOnEmpty` aggregators (np.min, np.max) raise ValueError there, which is caught: NaN
+  if vals.isEmpty && raisesOnEmpty then .nan else agg vals
 
 /-- `Within.compute_from_obs_fcst`: percentage of |o − f| inside the interval -/
 def withinSingle (I : Interval) (obs fcst : Vec) : XR :=
